@@ -24,7 +24,7 @@ def event_msg(body: bytes) -> bytes:
 def run_case(case, R):
     ops = case["ops"]
     names = [o[0] for o in ops]
-    R.nt(("drop" in names and "sub" in names) or any(o[0] == "burst" and len(o[1]) >= 2 for o in ops) or any(o[0] == "addl" and o[1] == "raising" for o in ops))
+    R.nt(("drop" in names and "sub" in names) or "offsub" in names or any(o[0] == "burst" and len(o[1]) >= 2 for o in ops) or any(o[0] == "addl" and o[1] == "raising" for o in ops))
     for n in set(names):
         R.cls("op:" + n)
 
@@ -120,6 +120,28 @@ def run_case(case, R):
                         await vtime.settle(loop)
                         if p.is_connected:
                             on_connected_expect()
+                elif name == "offsub":
+                    # subscribe while the accessory is unreachable (nothing can be sent, so no request is "cut off"), then it comes back
+                    ids = [tuple(x) for x in op[1]]
+                    w.net.connect_policy = lambda host, n: "refuse"
+                    c = cur()
+                    if c is not None:
+                        c.close("fin")
+                    await vtime.settle(loop)
+                    await asyncio.sleep(0.5)
+                    wanted |= set(ids)
+                    if not p.is_connected:
+                        R.cls("subscribe-while-unreachable")
+                    await asyncio.wait_for(p.subscribe(ids), 45)
+                    await asyncio.sleep(op[2])
+                    w.net.connect_policy = lambda host, n: "accept"
+                    await asyncio.sleep(70)          # one back-off period at most
+                    await vtime.settle(loop)
+                    if p.is_connected:
+                        on_connected_expect()
+                    else:
+                        R.fail("C12.not-resubscribed", f"{where}: accessory reachable again for 70 s, pairing not connected", first=False)
+                        return
                 elif name == "unsub":
                     ids = [tuple(x) for x in op[1]]
                     connected = p.is_connected
@@ -221,6 +243,7 @@ OP = st.one_of(
     st.tuples(st.just("burst"), st.lists(BODY, min_size=1, max_size=4), st.lists(st.integers(1, 3000), max_size=4)).map(list),
     st.just(["zc"]),
     st.tuples(st.just("adv"), st.sampled_from([0.1, 5, 61])).map(list),
+    st.tuples(st.just("offsub"), IDSETS, st.sampled_from([0.5, 5, 30])).map(list),
 )
 
 
@@ -236,6 +259,9 @@ def enum_fixed(tier):
     for b in bad:
         yield {"ops": [["sub", [[1, 9]]], ["burst", [b, v], []], ["burst", [v, b, v2], [7, 90]], ["burst", [v], []]]}
         yield {"ops": [["addl", "raising"], ["addl", "normal"], ["sub", [[1, 9], [2, 10]]], ["burst", [v, b, v], [3]], ["drop", "fin"], ["burst", [v2], []]]}
+    for secs in (0.5, 12, 40):
+        yield {"ops": [["offsub", [[1, 9], [2, 10]], secs], ["burst", [v2], []], ["drop", "fin"], ["burst", [v], []]]}
+        yield {"ops": [["sub", [[1, 9]]], ["offsub", [[2, 10]], secs], ["burst", [v2, v], []]]}
     for how in ("fin", "reset"):
         yield {"ops": [["sub", [[1, 9], [2, 10], [1, 10]]], ["drop", how], ["burst", [v], []], ["drop", how], ["sub", [[2, 9]]], ["drop", how], ["burst", [v2, v], [5]]]}
         yield {"ops": [["sub", [[1, 9]]], ["sub", [[2, 10]], how], ["burst", [v], []], ["sub", [[1, 10]]], ["drop", "fin"], ["burst", [v], []]]}
@@ -243,16 +269,19 @@ def enum_fixed(tier):
         yield {"ops": [["reject", [1, 10], -70406], ["sub", [[1, 9], [1, 10]]], ["drop", how], ["unsub", [[1, 10]]], ["drop", how], ["burst", [v], []]]}
 
 
+from props.coap_layers import C12_COAP_LAYERS as _COAP  # noqa: E402
+
 SPEC = Property(
     P, "exploration",
     rule=("histories of 2..18 operations over {subscribe / unsubscribe overlapping id sets over 2 accessory ids (the accessory may reject "
-          "items), subscribe cut by a FIN/reset (polling fallback), add normal/raising listener, remove listener, peer FIN/reset followed by "
+          "items), subscribe cut by a FIN/reset (polling fallback), subscribe while the accessory is unreachable followed by its return, add normal/raising listener, remove listener, peer FIN/reset followed by "
           "reconnection, event burst of 1..4 EVENT messages in one read or split across reads (valid with 1..3 characteristics, empty, "
           "non-JSON text, non-UTF-8 bytes) under generated frame sizes, zeroconf update, advance time}; model = wanted set, listener set, "
-          "polling-fallback flag. Non-trivial: a reconnect while something is subscribed, a burst of >=2 messages, or a raising listener."),
+          "polling-fallback flag. CoAP: 1..4 event notifications of 1..4 records each (instance ids may repeat inside one notification) to 1..3 listeners. Non-trivial: a reconnect while something is subscribed, a burst of >=2 messages, or a raising listener."),
     layers=[
         Layer("fixed-shapes", run_case, enumerate=enum_fixed, exhaustive=True, space="5 unparsable body kinds x 2 frames; FIN/reset x 4 frames", min_nontrivial=10),
         Layer("generated", run_case, strategy=histories, n={"quick": 12000, "thorough": 150000}, min_nontrivial=500),
+        *_COAP,
     ],
     assumptions=["valid JSON that is not an object is not generated as an event body",
                  "listener order within one event is not constrained (listeners are kept in a set); per-listener order is",
